@@ -25,7 +25,7 @@ pub const META: PropMeta = PropMeta {
     required_counters: &[
         "hook[rtp:composite]", "hook[rtp:variant]", "hook[rtp:sequence]", "hook[rtp:array]", "hook[rtp:tuple]",
         "hook[rtp:primitive]", "hook[rtp:compact]", "hook[rtp:bitsequence]", "hook[rtp:param-match]",
-        "hook[rtp:cow-unwrap]", "ids_related", "encodings_roundtripped", "artifact_roundtrips_ok", "artifact_cases_compiled",
+        "hook[rtp:cow-unwrap]", "ids_related", "encodings_roundtripped", "artifact_roundtrips_ok", "artifact_cases_compiled", "corpus_registries_match_model",
     ],
     floor: (300, 5000),
     shards: (16, 16),
@@ -347,6 +347,51 @@ pub fn run(ctx: &mut Ctx) {
             cfg.max_defs = 12;
         }
         sim_case(ctx, case, cfg, 3);
+    }
+    // ground truth: registries produced by REAL scale-info (committed corpus; thorough tier
+    // additionally compiles a fresh corpus). The model must reproduce each bit for bit modulo
+    // whitespace in type names (a mismatch is a harness defect: inconclusive), and the real
+    // registries are judged like any other.
+    let mut corpus: Vec<crate::corpus::CorpusEntry> = std::fs::read_to_string(verif_dir().join("corpus").join("corpus.json"))
+        .ok()
+        .and_then(|s| serde_json::from_str(&s).ok())
+        .unwrap_or_default();
+    if ctx.tier == Tier::Thorough && ctx.shard == 4 {
+        let programs: Vec<(Program, bool)> = (0..240u64).map(|k| (crate::corpus::corpus_program(ctx.seed.wrapping_add(1000), k, k % 2 == 0), k % 2 == 0)).collect();
+        let b = crate::corpus::build(&programs, "c01");
+        match crate::corpus::run(&b, programs.len(), &[]) {
+            Ok((regs, _)) => {
+                for (k, (p, c)) in programs.into_iter().enumerate() {
+                    corpus.push(crate::corpus::CorpusEntry { program: p, codec: c, real_registry: regs[k].clone() });
+                }
+                ctx.count("fresh_corpus_programs_compiled", regs.len() as u64);
+            }
+            Err(e) => ctx.inconclusive(format!("fresh corpus could not be built/run: {e}: {}", b.errors.lines().filter(|l| l.starts_with("error")).take(3).collect::<Vec<_>>().join(" | "))),
+        }
+        crate::corpus::cleanup(&b);
+    }
+    for (k, entry) in corpus.iter().enumerate() {
+        if !ctx.mine(k as u64) && !(ctx.tier == Tier::Thorough && ctx.shard == 4 && k >= 160) {
+            continue;
+        }
+        if let Some(d) = crate::corpus::compare(&entry.program, &entry.real_registry) {
+            ctx.inconclusive(format!("scale-info model differs from real scale-info on corpus program {k}: {}", d.chars().take(300).collect::<String>()));
+            continue;
+        }
+        ctx.count("corpus_registries_match_model", 1);
+        let Ok(real): Result<PortableRegistry, _> = serde_json::from_value(entry.real_registry.clone()) else { continue };
+        let out = sim::simulate(&entry.program);
+        let cf = sim::cf_source(&entry.program, &out);
+        let noncf: BTreeSet<u32> = cf.iter().filter(|(_, r)| r.is_some()).map(|(i, _)| *i).collect();
+        let unjudged = unjudged_ids(&real, &noncf);
+        let mut rng = ctx.rng("corpus", k as u64);
+        let d = random_sdesc(&mut rng, &real, &SettingsOpts::default());
+        ctx.begin_case(&format!("corpus program {k}"));
+        let regj = reg::to_json(&real);
+        let dj = serde_json::to_value(&d).unwrap();
+        let replay = |id: Option<u32>| json!({"kind": "registry", "registry": regj, "sdesc": dj, "id": id, "noncf": noncf, "label": format!("corpus#{k}")});
+        let st = judge(ctx, &real, &d, &unjudged, &replay, &mut rng);
+        ctx.case(hash_of(&(reg::fingerprint(&real), serde_json::to_string(&d).unwrap())), st.as_ref().map(|s| s.generated_related > 0).unwrap_or(false));
     }
     // two versions of one crate in one registry, de-duplicated first (as every real user does)
     let n_tv = ctx.tier.pick(600u64, 20_000u64);
